@@ -240,11 +240,10 @@ def updateDelegator (d : AccData) (a toVal : Addr) (delta : Int) (delete : Bool)
   | none => (d, [])
   | some o =>
     let found := o.dlgs.contains toVal
-    let (o1, es1) :=
-      if !found && !delete then ({ o with dlgs := insertSorted toVal o.dlgs }, [AccEntry.dlgs a o.dlgs])
-      else if found && delete then ({ o with dlgs := o.dlgs.erase toVal }, [AccEntry.dlgs a o.dlgs])
-      else (o, [])
-    (d.set a { o1 with dlgBalance := o1.dlgBalance + delta }, .dlgBalance a o1.dlgBalance :: es1)
+    let changed := (!found && !delete) || (found && delete)
+    let dl := if !found && !delete then insertSorted toVal o.dlgs else if found && delete then o.dlgs.erase toVal else o.dlgs
+    (d.set a { o with dlgs := dl, dlgBalance := o.dlgBalance + delta },
+      .dlgBalance a o.dlgBalance :: (if changed then [AccEntry.dlgs a o.dlgs] else []))
 
 /-! ## Validator side -/
 
